@@ -258,6 +258,14 @@ func PopulateStructFields(m map[string]any, data any) {
 
 		// Add the field itself (for path resolution like item.inStock)
 		m[tagName] = fieldValue
+
+		// A JSON-tagged field stays addressable by its Go name as well, like in
+		// ResolveValue (unless that name is taken by another field's tag).
+		if tagName != f.Name {
+			if _, taken := m[f.Name]; !taken {
+				m[f.Name] = fieldValue
+			}
+		}
 	}
 }
 
